@@ -738,6 +738,114 @@ func (w *world) exec(op string) (res string) {
 			return w.sortedShow(got)
 		}
 		return w.showIDs(got)
+	case "rotate":
+		// rotate <ks|-> <tok|-> <m>: m successive Picks, each drained, nothing in between. SPEC-BACKED: per tier the
+		// histogram "how often is this host the FIRST one offered from its tier (after the replica phases)" must be
+		// balanced (Lean: Policies.tierBalanced; C11_rotation_balanced_partial proves it for the model): with n hosts
+		// listed in the tier BY THE HISTORY (last call AddHost / HostUp) of which d cannot be offered (state down, or
+		// offered by the replica phases), every other host of the tier is first at least floor(m/n) and at most
+		// ceil(m/n)*(1+d) times - with d = 0 the same number of times +-1. Every drain is also checked like `offer`.
+		if len(f) != 4 {
+			return "bad-op"
+		}
+		m := atoi(f[3])
+		if m < 0 || m > 100000 {
+			return "bad-op"
+		}
+		reps, known, _ := w.specReplicas(f[1], f[2], "-")
+		fresh := w.specFresh(f[1])
+		if w.exclusion(reps, known, fresh) != "" {
+			return "excluded"
+		}
+		var rk []byte
+		if f[1] != "-" && f[2] != "-" {
+			rk = []byte(tok(atoi(f[2])))
+		}
+		if w.shuf {
+			gocql.VerifSeedShuffle(int64(m)) // the order inside the replica phases does not matter here; determinism does
+		}
+		var head []*gocql.HostInfo
+		if known {
+			head = w.specHead(reps)
+		}
+		inHead := map[*gocql.HostInfo]bool{}
+		for _, h := range head {
+			inHead[h] = true
+		}
+		var listed [3][]*gocql.HostInfo
+		for _, id := range w.sortedIDs() {
+			if st := w.stat(id); st.last == "add" || st.last == "hup" {
+				h := w.hosts[id]
+				listed[w.tier(h)] = append(listed[w.tier(h)], h)
+			}
+		}
+		hits := map[*gocql.HostInfo]int{}
+		var prev []*gocql.HostInfo
+		w.lastPlain = nil
+		for p := 0; p < m; p++ {
+			it := w.pol.Pick(gocql.VerifQuery("ks"+f[1], rk))
+			var got []*gocql.HostInfo
+			for {
+				sh := it()
+				if sh == nil {
+					break
+				}
+				if sh.Info() == nil {
+					return "crash:property violated on the real code: nil host offered"
+				}
+				got = append(got, sh.Info())
+				if len(got) > 500 {
+					return "crash:property violated on the real code: the iterator does not end"
+				}
+			}
+			if !noOracle {
+				if v := w.headViolation(head, got, 1000, false); v != "" {
+					return "crash:property violated on the real code: " + v
+				}
+				if v := w.oracle(got, len(head), false, head, fresh); v != "" {
+					return "crash:property violated on the real code: " + v + " offered=" + w.showIDs(got)
+				}
+				if !known && prev != nil {
+					if v := w.rotation(prev, got); v != "" {
+						return "crash:property violated on the real code: " + v + " previous=" + w.showIDs(prev) + " offered=" + w.showIDs(got)
+					}
+				}
+			}
+			prev = got
+			rest := got
+			if len(head) <= len(got) {
+				rest = got[len(head):]
+			}
+			var seenTier [3]bool
+			for _, h := range rest {
+				if t := w.tier(h); !seenTier[t] {
+					seenTier[t] = true
+					hits[h]++
+				}
+			}
+		}
+		for t := 0; t < 3; t++ {
+			n := len(listed[t])
+			if n == 0 {
+				continue
+			}
+			d := 0
+			for _, h := range listed[t] {
+				if !h.IsUp() || inHead[h] {
+					d++
+				}
+			}
+			lo, hi := m/n, (m+n-1)/n*(1+d)
+			for _, h := range listed[t] {
+				if h.IsUp() && !inHead[h] && (hits[h] < lo || hits[h] > hi) {
+					if os.Getenv("VERIF_DEBUG") != "" {
+						fmt.Fprintf(os.Stderr, "rotate: tier %d host %d first %d times in %d picks, expected %d..%d (n=%d d=%d)\n", t, w.ids[h], hits[h], m, lo, hi, n, d)
+					}
+					return fmt.Sprintf("skewed:%d", t)
+				}
+			}
+		}
+		return "balanced"
 	case "open":
 		// open <slot> <ks|-> <tok|-> <perms|->
 		if len(f) != 5 {
@@ -1951,6 +2059,219 @@ func (g *gen) pickWith(ks, tk string, limit int, wantOffer bool) string {
 	return g.emit(fmt.Sprintf("pick %s %s %d %s", ks, tk, limit, perms), "pick"+cls, true)
 }
 
+// rotShapes: sizes of the three tiers (local rack / local DC / remote DC): nearer tiers of size 0, 1, 2, sizes
+// that are not multiples of each other, equal sizes
+var rotShapes = [][3]int{{1, 4, 3}, {2, 6, 5}, {3, 3, 3}, {0, 4, 3}, {1, 1, 5}, {2, 3, 0}, {0, 0, 4}, {1, 5, 2}, {2, 5, 3},
+	{4, 2, 3}, {1, 3, 0}, {0, 2, 5}, {3, 4, 5}, {1, 2, 3}, {2, 4, 4}, {1, 6, 4}, {5, 1, 2}, {1, 0, 3}}
+
+func gcd(a, b int) int {
+	for b != 0 {
+		a, b = b, a%b
+	}
+	return a
+}
+
+// rotationScenario (fourth round; family "successive queries rotate the starting host WITHIN EVERY TIER so load is
+// spread"): every round-robin based policy (rr / dc / rack), alone, as token-aware fallback without routing key and
+// as token-aware fallback with routing key (replica table installed / computed for the session keyspace / ring owner),
+// over the tier shapes of rotShapes and random ones, hosts added in random order, the rotation counter preset to
+// random places (small, around 2^31 and 2^32, 40 bit). Rounds: some hosts set DOWN BUT STILL LISTED (state only, no
+// HostDown) - now and then every host of the nearest non-empty tier -, hosts added / removed / reported down, then
+// the spec-backed op `rotate`: m = k * lcm(tier sizes) successive picks (every start position of every tier exactly
+// k times) or an arbitrary m (the +-1 form), each drained, and per tier - also the tiers that are not the first
+// non-empty one - the histogram of the first host offered.
+func (g *gen) rotationScenario(idx int) {
+	r := g.r
+	g.kind = []string{"rack", "dc", "rack", "rr", "rack", "dc"}[idx%6]
+	variant := (idx / 6) % 3 // 0 bare, 1 token-aware without routing key, 2 token-aware with routing key
+	g.ta = variant != 0
+	shuffle := g.ta && r.Intn(3) == 0
+	g.nonlocal = g.ta && r.Bool()
+	g.ldc, g.lrack = r.Intn(2), r.Intn(2)
+	g.sess = -1
+	g.emit(fmt.Sprintf("reset %s %s %d %d %s %s 1", g.kind, b01(g.ta), g.ldc, g.lrack, b01(shuffle), b01(g.nonlocal)), "reset/"+g.kind+"/ta"+b01(g.ta), false)
+	var shape [3]int
+	if idx < 3*len(rotShapes) {
+		shape = rotShapes[(idx+idx/len(rotShapes))%len(rotShapes)]
+	} else {
+		for shape[0]+shape[1]+shape[2] == 0 {
+			shape = [3]int{r.Intn(4), r.Intn(7), r.Intn(6)}
+		}
+	}
+	switch g.kind {
+	case "dc":
+		if shape[1] == 0 {
+			shape[1] = shape[2]
+		}
+		shape[2] = 0
+	case "rr":
+		if shape[1] == 0 {
+			shape[1] = shape[2]
+		}
+		if shape[1] == 0 {
+			shape[1] = shape[0]
+		}
+		shape[0], shape[1], shape[2] = shape[1], 0, 0
+	}
+	if shape[0]+shape[1]+shape[2] == 0 {
+		shape[0] = 1 + r.Intn(5)
+	}
+	sessTable := variant == 2 && r.Intn(3) == 0
+	if sessTable {
+		g.sess = 0
+		g.emit("sessks 0", "sessks", false)
+		g.emit(fmt.Sprintf("ksmeta 0 %d", 1+r.Intn(3)), "ksmeta", false)
+	}
+	place := func(t int) (int, int) { // dc, rack of a host of tier t
+		switch g.kind {
+		case "rack":
+			switch t {
+			case 0:
+				return g.ldc, g.lrack
+			case 1:
+				return g.ldc, (g.lrack + 1 + r.Intn(2)) % 3
+			}
+			return 1 - g.ldc, r.Intn(3)
+		case "dc":
+			if t == 0 {
+				return g.ldc, r.Intn(3)
+			}
+			return 1 - g.ldc, r.Intn(3)
+		}
+		return r.Intn(2), r.Intn(3)
+	}
+	g.n = 0
+	newHost := func(t int) int {
+		g.n++
+		dc, rack := place(t)
+		g.emit(fmt.Sprintf("host %d %d %d %d %d", g.n, g.n, dc, rack, g.n*100), "host", false)
+		return g.n
+	}
+	var ids []int
+	for t := 0; t < 3; t++ {
+		for k := 0; k < shape[t]; k++ {
+			ids = append(ids, newHost(t))
+		}
+	}
+	for _, j := range rngPerm(r, len(ids)) {
+		g.emit(fmt.Sprintf("add %d", ids[j]), "add", true)
+	}
+	if variant == 2 && !sessTable && r.Intn(4) != 0 {
+		var parts []string
+		for t := 0; t < 2+r.Intn(2); t++ {
+			k := 1 + r.Intn(3)
+			if k > g.n {
+				k = g.n
+			}
+			var l []string
+			for _, j := range rngPerm(r, g.n)[:k] {
+				l = append(l, strconv.Itoa(j+1))
+			}
+			parts = append(parts, fmt.Sprintf("%d:%s", (g.n*100/3+1)*(t+1), strings.Join(l, ",")))
+		}
+		g.emit("repl 0 "+strings.Join(parts, " "), "repl", false)
+	}
+	if r.Bool() {
+		n := uint64(r.Intn(1000))
+		switch r.Intn(4) {
+		case 0:
+			n = 1<<31 - 1 - uint64(r.Intn(40))
+		case 1:
+			n = 1<<32 - 1 - uint64(r.Intn(40))
+		case 2:
+			n = r.U64() >> 24
+		}
+		g.emit(fmt.Sprintf("ctr %d", n), "ctr/rot", true)
+	}
+	variantName := []string{"plain", "ta-nokey", "ta-key"}[variant]
+	for round := 0; round < 3; round++ {
+		// the cluster between the rounds
+		muts := 0
+		if round > 0 {
+			muts = 1 + r.Intn(2)
+		} else if r.Intn(4) == 0 {
+			muts = 1
+		}
+		for ; muts > 0; muts-- {
+			id := 1 + r.Intn(g.n)
+			switch x := r.Intn(20); {
+			case x < 7: // down but still listed
+				g.emit(fmt.Sprintf("state %d 0", id), "state", false)
+			case x < 10: // every host of the nearest non-empty tier down but listed: all queries go on to the next tier
+				for t := 0; t < 3; t++ {
+					var in []int
+					for _, i := range g.w.sortedIDs() {
+						if st := g.w.stat(i); (st.last == "add" || st.last == "hup") && g.w.tier(g.w.hosts[i]) == t {
+							in = append(in, i)
+						}
+					}
+					if len(in) > 0 {
+						for _, i := range in {
+							g.emit(fmt.Sprintf("state %d 0", i), "state", false)
+						}
+						break
+					}
+				}
+			case x < 13: // every host up again
+				for _, i := range g.w.sortedIDs() {
+					if !g.w.hosts[i].IsUp() {
+						g.emit(fmt.Sprintf("state %d 1", i), "state", false)
+					}
+				}
+			case x < 16: // a node joins
+				g.emit(fmt.Sprintf("add %d", newHost(r.Intn(3))), "add", true)
+			case x < 18:
+				g.emit(fmt.Sprintf("remove %d", id), "remove", true)
+			default: // reported down the way the session does it
+				g.emit(fmt.Sprintf("state %d 0", id), "state", false)
+				g.emit(fmt.Sprintf("hdown %d", id), "hdown", true)
+			}
+		}
+		ks, tk := "-", "-"
+		if variant == 2 {
+			ks, tk = "0", strconv.Itoa(r.Intn((g.n+1)*100))
+		}
+		// sizes of the tiers as the history has them
+		var size [3]int
+		downListed := false
+		for _, i := range g.w.sortedIDs() {
+			if st := g.w.stat(i); st.last == "add" || st.last == "hup" {
+				size[g.w.tier(g.w.hosts[i])]++
+				if !g.w.hosts[i].IsUp() {
+					downListed = true
+				}
+			}
+		}
+		lcm := 1
+		for _, n := range size {
+			if n > 0 {
+				lcm = lcm / gcd(lcm, n) * n
+			}
+		}
+		m, mcls := lcm*(1+r.Intn(3)), "whole-periods"
+		if m > 180 {
+			m = lcm
+		}
+		if m > 180 || r.Intn(3) == 0 {
+			m, mcls = 1+r.Intn(2*(size[0]+size[1]+size[2])+4), "any-m"
+		}
+		cls := fmt.Sprintf("/%s/%s/%d-%d-%d/%s", g.kind, variantName, size[0], size[1], size[2], mcls)
+		if downListed {
+			cls += "/down-listed"
+		}
+		reps, known, _ := g.w.specReplicas(ks, tk, "-")
+		if x := g.w.exclusion(reps, known, g.w.specFresh(ks)); x != "" {
+			g.pickWith(ks, tk, 1000, false)
+			g.pickWith(ks, tk, 1000, false)
+			continue
+		}
+		g.emit(fmt.Sprintf("rotate %s %s %d", ks, tk, m), "rotate"+cls, true)
+		if r.Intn(4) == 0 {
+			g.pickWith(ks, tk, 1000, true)
+		}
+	}
+}
+
 func b01(x bool) string {
 	if x {
 		return "1"
@@ -2012,6 +2333,12 @@ func (g *gen) boundaryScenario(hot bool) {
 		}
 		k := uint64(1 + r.Intn(8))
 		g.emit(fmt.Sprintf("ctr %d", base-k), "ctr/"+name, true)
+		if !hot && round == 1 && r.Bool() {
+			// the spec-backed rotation histogram across the boundary
+			if reps, known, _ := g.w.specReplicas("-", "-", "-"); g.w.exclusion(reps, known, true) == "" {
+				g.emit(fmt.Sprintf("rotate - - %d", 12+r.Intn(30)), "rotate/"+g.kind+"/boundary/"+name, true)
+			}
+		}
 		for i := 0; i < 16; i++ {
 			switch x := r.Intn(10); {
 			case x < 7 || !g.ta:
@@ -2309,6 +2636,15 @@ func main() {
 	ni, nbu, nbr, nse := 60, 24, 12, 120
 	if tier == "thorough" {
 		ni, nbu, nbr, nse = 1800, 240, 40, 3600
+	}
+	// (fourth round) the rotation family comes first of all: its observations are spec-backed (`rotate`), a skewed
+	// tier there is a failing input of the rotation sub-claim and must not be buried under sequence disagreements
+	nro := 108
+	if tier == "thorough" {
+		nro = 3240
+	}
+	for i := 0; i < nro; i++ {
+		g.rotationScenario(i)
 	}
 	for i := 0; i < ni; i++ {
 		g.interleaveScenario(i)
